@@ -5,7 +5,8 @@ one is identified with Mathlib's `gaussianPDFReal` (`Props/C17.lean :: prior_den
 
 `NormalPrior`, `HalfNormalPrior`, `LogNormalPrior`, `UniformPrior`, `HalfCauchyPrior`, `GammaPrior` inherit
 `log_prob` from torch.distributions (outside /repo: modelled from their documented densities);
-`SmoothedBoxPrior` and `HorseshoePrior` are /repo code (`smoothed_box_prior.py`, `horseshoe_prior.py`).
+`SmoothedBoxPrior` and `HorseshoePrior` are /repo code: their log densities are regenerated from the source
+(`Gen/Priors.lean`, translator `harness/translate/g6_priors.py`), with `normalLogProb` below for the box's tails.
 Core Lean only.
 -/
 import GPVerif.Model.ScalarFn
@@ -35,23 +36,5 @@ def halfCauchyLogProb (s x : α) : α :=
 /-- `Gamma(a, b).log_prob(x)` for `x > 0`; `lgammaA = log Γ(a)` is supplied by the caller. -/
 def gammaLogProb (a b lgammaA x : α) : α :=
   a * TransFn.log b + (a - ((1 : Nat) : α)) * TransFn.log x - b * x - lgammaA
-
-/-- `SmoothedBoxPrior(a, b, σ)._log_prob(x)` (one coordinate):
-`X = max(|x − (a+b)/2| − (b−a)/2, 0)`, `Normal(0,σ).log_prob(X) − log(1 + (b−a)/(√(2π)·σ))`. -/
-def smoothedBoxLogProb [Max α] (a b σ x : α) : α :=
-  let c := (a + b) / ((2 : Nat) : α)
-  let r := (b - a) / ((2 : Nat) : α)
-  let X := max (TransFn.abs (x - c) - r) ((0 : Nat) : α)
-  normalLogProb ((0 : Nat) : α) σ X
-    - TransFn.log (((1 : Nat) : α) + (b - a) / (TransFn.sqrt (((2 : Nat) : α) * TransFn.pi) * σ))
-
-/-- `HorseshoePrior(s).log_prob(x)`: `A = (s/x)²`, `K = 1/√(2π³)`,
-`log((K/2·log(1+4A) + K·log(1+2A))/2)` -/
-def horseshoeLogProb (s x : α) : α :=
-  let A := (s / x) * (s / x)
-  let K := ((1 : Nat) : α) / TransFn.sqrt (((2 : Nat) : α) * (TransFn.pi * TransFn.pi * TransFn.pi))
-  let lb := K / ((2 : Nat) : α) * TransFn.log (((1 : Nat) : α) + ((4 : Nat) : α) * A)
-  let ub := K * TransFn.log (((1 : Nat) : α) + ((2 : Nat) : α) * A)
-  TransFn.log ((lb + ub) / ((2 : Nat) : α))
 
 end Priors
